@@ -10,12 +10,14 @@
 (* structure plus a member dimension of the requested length.              *)
 (***************************************************************************)
 EXTENDS Naturals, FiniteSets, TLC
-CONSTANTS NBoots, SeedSet, Structures, NamePairs, Flags
+CONSTANTS NBoots, SeedSet, Structures, NamePairs, Flags,
+          Magnitudes    \* decimal exponent of the data's physical unit: the statement holds for every fitted model
 VARIABLES cfg, pred, phase
 vars == <<cfg, pred, phase>>
 Init == /\ phase = "cfg" /\ pred = [nmembers |-> 0]
-        /\ \E nb \in NBoots, s \in SeedSet, st \in Structures, nm \in NamePairs, fl \in Flags :
-              cfg = [nboot |-> nb, seed |-> s, structure |-> st, names |-> nm, flags |-> fl]
+        /\ \E nb \in NBoots, s \in SeedSet, st \in Structures, nm \in NamePairs, fl \in Flags, mg \in Magnitudes :
+              /\ cfg = [nboot |-> nb, seed |-> s, structure |-> st, names |-> nm, flags |-> fl, mag |-> mg]
+              /\ (mg # 0) => (nm = "default" /\ \A x \in NBoots : x <= nb)     \* vary one at a time
 Do == /\ phase = "cfg" /\ phase' = "done" /\ UNCHANGED cfg
       /\ pred' = [nmembers |-> cfg.nboot, resampleOf |-> cfg.seed, withReplacement |-> TRUE,
                   memberDim |-> "n", signAligned |-> TRUE, modelUntouched |-> TRUE]
@@ -23,4 +25,7 @@ Next == Do
 Spec == Init /\ [][Next]_vars
 C20_Structure == phase = "done" => pred.nmembers = cfg.nboot /\ pred.memberDim = "n"
 C20_SameSeedSameResample == phase = "done" => pred.resampleOf = cfg.seed
+\* nothing that is predicted (member count, seed function, sign alignment) depends on the unit of the data
+C20_UnitImmaterial == phase = "done" => pred = [nmembers |-> cfg.nboot, resampleOf |-> cfg.seed, withReplacement |-> TRUE,
+                                                 memberDim |-> "n", signAligned |-> TRUE, modelUntouched |-> TRUE]
 =============================================================================
